@@ -122,6 +122,8 @@ func Cmd(t *rapid.T, d model.Doc, env model.Env, o CmdOpts) model.Cmd {
 			var day int
 			if len(d.Records) > 0 && rapid.IntRange(0, 2).Draw(t, "dateExisting") != 0 {
 				day = rapid.SampledFrom(d.Records).Draw(t, "dateOfRecord").Date.Days() + rapid.SampledFrom([]int{0, 0, 0, -1, 1}).Draw(t, "dateDelta")
+			} else if rapid.IntRange(0, 5).Draw(t, "dateAnywhere") == 0 {
+				day = Day(t, "dateAny") // any year 0000-9999, biased to calendar edges
 			} else {
 				day = env.NowDay + rapid.IntRange(-6, 6).Draw(t, "dateNear")
 			}
@@ -268,4 +270,12 @@ func EnsureOpenRange(t *rapid.T, d *model.Doc, env model.Env) int {
 	hi := delta*1440 + env.NowMin()
 	r.Entries[oi].Start = TimeLit(t, Off(t, -1440, hi, "openStartOff"), "openStartLit")
 	return ri
+}
+
+// EdgeDates moves the records of a document to the first/last representable days.
+func EdgeDates(t *rapid.T, d *model.Doc) {
+	for i := range d.Records {
+		day := rapid.SampledFrom([]int{model.MinDay, model.MinDay, model.MinDay + 1, model.MaxDay - 1, model.MaxDay, model.MaxDay}).Draw(t, "edgeDay")
+		d.Records[i].Date = model.DateOfDays(day, d.Records[i].Date.Slash)
+	}
 }
